@@ -36,15 +36,11 @@ THEOREMS = [
     "Docstring.pair_both_orders_kept", "Docstring.runPair_last_desc", "Docstring.runPair_last_type",
     "Rst.stripSeparator_keeps_description", "Rst.stripSeparator_no_separator",
     "Property.fields_kept_with_body", "Property.return_kept_when_body",
-    "Params.described_parameter_row", "Params.typed_parameter_row", "Params.type_of_self_counterexample",
+    "Params.described_parameter_row", "Params.typed_parameter_row", "Params.type_field_shown", "Params.type_of_self_old_counterexample",
     "Params.lookup_dictSet", "Params.paramsDict_lookup",
     "Attrs.var_text_held", "Attrs.type_text_held", "Attrs.shownType_own",
 ]
 PARTIAL = {
-    "Params.typed_parameter_row":
-        "hypothesis: the name is not the leading `self` / `cls` of a method (`Sig.selfName`): `resolve_types` drops that row when it "
-        "has no description even if its type comes from the docstring — `Params.type_of_self_counterexample`, replayed on the real "
-        "code: open finding field:type-of-self-or-cls-silently-dropped.",
     "Docstring.every_tag_rendered_or_reported_partial":
         "hypothesis `inScope`: a `type` field with a name in a module/class docstring names a variable that is assigned or "
         "documented by ivar/cvar/var — otherwise the type goes to an Attribute without kind that is never displayed (open "
@@ -2259,8 +2255,13 @@ def doc_verdict(inp, verbose: bool = False) -> Tuple[int, List[str]]:
         words = f[2] if isinstance(f[2], list) else [f[2]]
         shown = text_of(root).split() + text_of(dom(r.get("own_type") or "")).split() + \
             [w for a in r["attrs"].values() if a["visible"] for w in text_of(dom(a["html"])).split() + text_of(dom(a["type"] or "")).split()]
-        it = iter(shown)
-        present = all(w in it for w in words)
+        joined, pos, present = " ".join(shown), 0, True      # words in order; a name cell reads "self:the …" without a blank
+        for w in words:
+            pos = joined.find(w, pos)
+            if pos < 0:
+                present = False
+                break
+            pos += len(w)
         reported = any((f[1] and f[1] in l) or re.search(r"\b[ic]?%s\b" % re.escape(f[0]), l) for l in r["reports"])
         lines.append("oracle    : field %s %s -> text displayed: %s, reported: %s" % (f[0], f[1] or "", present, reported))
         bad = bad or int(not (present or reported))
